@@ -55,8 +55,24 @@ def merchants_struct(rf):
     return top, secs, (intended, ivars, itrans)
 
 
+_RELOAD = {}
+
+
 def parsed_merchants(text):
     eng = obs.load_engine(text)
+    # the same text read from a FILE whose path has been loaded before with other contents: a load reflects what the file states now
+    from pathlib import Path
+    from tally.merchant_engine import load_merchants_file
+    if 'path' not in _RELOAD or not os.path.isdir(os.path.dirname(_RELOAD['path'])):
+        _RELOAD['path'] = obs.write_rules('# placeholder\n', 'reloaded.rules')
+    with open(_RELOAD['path'], 'w', encoding='utf-8', newline='') as f:
+        f.write(text)
+    S = lambda e: ([(r.name, r.match_expr, r.category, r.subcategory, r.merchant, frozenset(r.tags), r.priority, tuple(r.let_bindings), tuple(sorted(r.fields.items()))) for r in e.rules],
+                   dict(e.variables), list(e.transforms))
+    eng_f = load_merchants_file(Path(_RELOAD['path']))
+    if S(eng_f) != S(eng):
+        raise Violation(f'the file {os.path.basename(_RELOAD["path"])} (re-written, then loaded) gives {S(eng_f)[0]} but its text parsed directly gives {S(eng)[0]}\n{text}',
+                        {'kind': 'reload', 'text': text}, 'file-vs-text')
     return ([(r.name, r.match_expr, r.category, r.subcategory, r.merchant, frozenset(r.tags), r.priority, tuple(r.let_bindings), tuple(sorted(r.fields.items())))
              for r in eng.rules], dict(eng.variables), list(eng.transforms)), eng
 
@@ -496,7 +512,10 @@ def check_cli(case, stats: Stats):
 
 def replay(case):
     try:
-        if case.get('kind') == 'cli_views':
+        if case.get('kind') == 'reload':
+            parsed_merchants('# loaded before\n[Earlier]\nmatch: contains("EARLIER")\ncategory: Earlier\n')
+            parsed_merchants(case['text'])
+        elif case.get('kind') == 'cli_views':
             check_cli_views(case, Stats())
         elif case.get('kind') == 'cli':
             check_cli(case, Stats())
